@@ -5,7 +5,8 @@
    (tag, value) pair and (b) the trace of the cache / cell operations performed on the way.  This
    file gives the model-side reading of both: [dec_code] / [dec_of_code] for results, and an
    interpreter of cache operations on a [metric].  No proofs, nothing here depends on Gen. *)
-From SG Require Import Base.Prelude Base.GoInt Model.LRU Model.Hotspot.
+From Coq Require Import Floats.
+From SG Require Import Base.Prelude Base.GoInt Base.GoFloat Model.LRU Model.Hotspot.
 #[local] Open Scope Z_scope.
 
 (* *base.TokenResult as the translator prints it: (0,0) nil; (1,0) blocked without triggered value;
@@ -66,3 +67,21 @@ Definition op_conc_get (k : Z) (m : metric) : metric := m_with_conc m (fst (lru_
 (* atomic.AddInt64(ptr, d) on a cell holding cur *)
 Definition op_conc_add (k cur d : Z) (m : metric) : metric :=
   m_with_conc m (lru_set k (i64 (cur + d)) (m_conc m)).
+
+(* ---- int64(math.Round(f)) -------------------------------------------------------------------- *)
+(* math.Round (nearest integer, halves away from zero) on the exact value m * 2^e of the double, then
+   Go's int64 conversion (amd64: -2^63 when out of range / NaN / Inf).  Same text as the definition the
+   translator prints into Leaf_gen.v (leaf_round_Z / leaf_i64_of_round). *)
+Definition round_Z (f : float) : option Z :=
+  match Prim2SF f with
+  | S754_zero _ => Some 0
+  | S754_finite s m e =>
+      let v := if 0 <=? e then Zpos m * 2 ^ e else (Zpos m + 2 ^ (- e - 1)) / 2 ^ (- e) in
+      Some (if s then - v else v)
+  | _ => None
+  end.
+Definition i64_of_round (f : float) : Z :=
+  match round_Z f with
+  | Some t => if (- two63 <=? t) && (t <? two63) then t else - two63
+  | None => - two63
+  end.
